@@ -223,3 +223,5 @@ def run(cx, out):
         # the fake-specialisation table decides which types take the bulk path (shared with C01 R01.3)
         from . import c01
         c01.check_type_info(out, facts)
+    from . import positive
+    positive.check(cx, out, 'C07')
